@@ -612,7 +612,9 @@ def gen_peer_ops(rng):
     ops.append(['PReq', 0])
     maybe()
     if rng.random() < 0.85:
-        ops.append(['FConn', 0, rng.choice(['open', 'err', 'err', 'eof', 'data'])])
+        ops.append(['FConn', 0, rng.choice(['open', 'open', 'err', 'err', 'eof', 'data'])])
+        if ops[-1][2] == 'open' and rng.random() < 0.6:      # stop in the middle of the file transfer, then the peer goes on sending
+            ops += [[rng.choice(['A', 'P', 'P', 'X']), 0], ['FEnd', 0, rng.choice(['data', 'eof', 'err'])], ['T', 0.3]]
         maybe()
         if ops[-1][:1] == ['FConn'] and ops[-1][2] == 'open' or rng.random() < 0.3:
             ops.append(['FEnd', 0, rng.choice(['err', 'eof', 'data'])])
@@ -622,6 +624,29 @@ def gen_peer_ops(rng):
     ops.append([rng.choice(['A', 'P', 'X', 'A']), 0])
     maybe(0.4)
     return ops
+
+
+def core_scenarios():
+    """Run on every check: abort / pause / remove at every phase of every kind of negotiation (the random families
+    reach these phases only with some probability)."""
+    phases = {
+        'rq-connecting': [['Mode', 0, 'slow'], ['D', 0], ['T', 0.3]],
+        'rq-and-peer-init': [['Mode', 0, 'slow'], ['D', 0], ['T', 0.3], ['PReq', 0]],
+        'download-init': [['D', 0], ['T', 0.3], ['PReq', 0]],
+        'downloading': [['D', 0], ['T', 0.3], ['PReq', 0], ['FConn', 0, 'open']],
+        'incomplete-retry': [['D', 0], ['T', 0.3], ['PReq', 0], ['FConn', 0, 'err'], ['Drop', 0], ['Mode', 0, 'slow'], ['T', 0.3]],
+        'upload-connecting': [['Mode', 0, 'slow'], ['U', 0], ['T', 0.3]],
+        'upload-waiting-reply': [['U', 0], ['T', 0.3]],
+        'upload-file-connecting': [['U', 0], ['T', 0.3], ['Mode', 0, 'slow'], ['ReplyOK', 0]],
+        'uploading': [['U', 0], ['T', 0.3], ['ReplyOK', 0], ['FOff', 0, 'ok']],
+        'upload-failed-notifying': [['U', 0], ['T', 0.3], ['ReplyOK', 0], ['DropP', 0], ['Mode', 0, 'slow'], ['FOff', 0, 'err']],
+    }
+    out = []
+    for name, pre in phases.items():
+        for stop in ('A', 'P', 'X'):
+            tail = [['FEnd', 0, 'data']] if name == 'downloading' else ([['PQ', 0], ['T', 0.3]] if name.startswith('upload') else [['Poke'], ['T', 0.3]])
+            out.append((name + '/' + stop, 'fallback', pre + [[stop, 0]] + tail))
+    return out
 
 
 def gen_block_ops(rng):
@@ -817,6 +842,19 @@ def run(run: Run):
             cases.append((ups[i], r, wit))
         for k, text in viol:
             run.add_finding(Finding(k, WHAT.get(k, text), wit, observed=text, expected='no activity after the call returned; one task per slot'))
+
+    for name, mode, ops in core_scenarios():
+        try:
+            rows, viol, ups = execute(mode, ops)
+        except Exception as e:
+            run.add_broken('correspondence:C06 core scenario crashed', f'{name}: {type(e).__name__}: {e}')
+            continue
+        run.case({'core': name}, nontrivial=True, kind='core')
+        for ti, r in rows.items():
+            cases.append((ups[ti], r, {'mode': mode, 'ops': ops}))
+        for k, text in viol:
+            run.add_finding(Finding(k, WHAT.get(k, text), {'mode': mode, 'ops': ops}, observed=text,
+                                    expected='no activity after the call returned; one task per slot, held by the slot'))
 
     n = 90 if run.tier == "quick" else 450
     seen_new = set()
